@@ -987,7 +987,7 @@ def nested_stream(ctx, rng, k4_ok):
     from mashumaro.codecs import BasicDecoder
     from mashumaro.codecs.json import JSONDecoder
     items, shown = [], []
-    n_cls = ctx.budget(40, 200)
+    n_cls = ctx.budget(40, 110)
     for ci in range(n_cls):
         spec = gen_nested(rng)
         src = class_source(spec)
@@ -1344,7 +1344,7 @@ def deep_stream(ctx, rng, k4_ok):
     items, shown = [], []
     order = ["N2", "N1", "K"]
     idx = {n: i for i, n in enumerate(order)}
-    for ci in range(ctx.budget(40, 200)):
+    for ci in range(ctx.budget(40, 130)):
         spec = gen_deep(rng)
         classes = deep_classes(spec)
         src = class_source(spec)
@@ -1479,7 +1479,7 @@ def gen_diamond(rng):
 def diamond_stream(ctx, rng, k4_ok, dc_items, dc_shown):
     from mashumaro.codecs import BasicDecoder
     items, shown = [], []
-    for ci in range(ctx.budget(40, 160)):
+    for ci in range(ctx.budget(40, 90)):
         spec = gen_diamond(rng)
         src = class_source(spec)
         try:
@@ -1506,7 +1506,7 @@ def diamond_stream(ctx, rng, k4_ok, dc_items, dc_shown):
         cfg = spec["levels"][-1]["config"]
         g = f"(mkCfg {c_aliases(cfg['aliases'])} {vlib.coq_bool(cfg['allow'])} {vlib.coq_bool(cfg['forbid'])})"
         dfl = c_defaults(spec)
-        for ks in subsets(keys, rng, ctx.budget(24, 128)):
+        for ks in subsets(keys, rng, ctx.budget(24, 64)):
             d = make_dict(ks, keys, rng)
             exp = o_keymodel(spec, d)
             obs0 = None
@@ -1650,7 +1650,7 @@ def run(ctx: vlib.Ctx):
     deep_stream(ctx, rng, k4_ok)
     dc_items, dc_shown = [], []
     diamond_stream(ctx, rng, k4_ok, dc_items, dc_shown)
-    n_classes = ctx.budget(200, 320)
+    n_classes = ctx.budget(200, 230)
     sub_max = ctx.budget(32, 256)
     forced = [{"allow": a, "forbid": b, "mixin": m, "nf": nf, "depth": dp} for a in (False, True) for b in (False, True)
               for m in (None, "dict") for nf, dp in ((1, 1), (2, 3))]
